@@ -160,6 +160,17 @@ func runC11(c *ShardCtx) {
 			runGrammar(c, g, fam)
 		}
 	}
+	// cross family (cross.go): every construct x every flag set, every block in turn failing
+	{
+		cn := 3
+		if c.Thorough() {
+			cn = 4
+		}
+		if !runCross(c, &idx, &crossSpec{maxSize: cn, gens: gens16, inputs: crossInputsSmall, opts: []rtapi.RunOpts{{MaxExpr: 600, Filename: "f.txt"}, {MaxExpr: 600, NoRecover: true}},
+			scripts: crossFaultScripts, nontrivial: nontriv, cmp: core.CmpOpts{SkipLog: true}}) {
+			return
+		}
+	}
 	for _, body := range en.UpTo(n) {
 		idx++
 		if !c.Mine(idx) {
